@@ -633,6 +633,10 @@ class HomeKitConnection:
                 aiohappyeyeballs.pop_addr_infos_interleave(addr_infos, interleave)
 
         if sock is None or connected_host is None:
+            # None of the addresses we tried accepted a connection, so give
+            # the ones skipped because of an unexpected pairing id another
+            # chance; they must not stay excluded while nothing else works.
+            self._pair_verify_failed_hosts.clear()
             if isinstance(last_exception, asyncio.TimeoutError):
                 raise TimeoutError("Timeout") from last_exception
             raise ConnectionError(str(last_exception)) from last_exception
